@@ -190,11 +190,11 @@ def two_threads_k2(same: bool, cap: int, ttl: int, d0: int, d1: int, first: int,
     return _verdict(s, cache, clock, out, nonces, cap, ttl)
 
 
-@cond(q=60, t=1200, tiers=("thorough",), engine="coop", replay=_replay_3, encoded=ENCODED, bound="3 threads, 2 preemptions, cap 1..3, ttl and clocks symbolic")
+@cond(q=60, t=3000, tiers=("thorough",), engine="coop", replay=_replay_3, encoded=ENCODED, bound="3 threads, 2 preemptions, cap 1..2, ttl and clocks symbolic")
 def three_threads_k2(same01: bool, same02: bool, cap: int, ttl: int, d0: int, d1: int, d2: int, first: int, p1: int, t1: int, p2: int, t2: int) -> bool:
     """
-    pre: 1 <= cap <= 3 and ttl > 0 and d0 >= 0 and d1 >= 0 and d2 >= 0
-    pre: 0 <= first <= 2 and 0 <= t1 <= 2 and 0 <= t2 <= 2 and 0 <= p1 < p2 <= 60
+    pre: 1 <= cap <= 2 and ttl > 0 and d0 >= 0 and d1 >= 0 and d2 >= 0
+    pre: 0 <= first <= 2 and 0 <= t1 <= 2 and 0 <= t2 <= 2 and 0 <= p1 < p2 <= 45
     post: _
     """
     d = [d0, d1, d2]
